@@ -522,13 +522,21 @@ func (l *Lexer) shiftEndTag() []byte {
 // shiftXML parses the content of a svg or math tag according to the XML 1.1 specifications, including the tag itself.
 // So far we have already parsed `<svg` or `<math`.
 func (l *Lexer) shiftXML(rawTag Hash) []byte {
-	inQuote := false
+	inTag := true      // we start inside the svg or math start tag
+	inQuote := byte(0) // quotes delimit strings inside tags only, and a string ends at the same quote
 	for {
 		c := l.r.Peek(0)
-		if c == '"' {
-			inQuote = !inQuote
+		if inTag && c != 0 && (c == inQuote || inQuote == 0 && (c == '"' || c == '\'')) {
+			if inQuote == 0 {
+				inQuote = c
+			} else {
+				inQuote = 0
+			}
 			l.r.Move(1)
-		} else if c == '<' && !inQuote && l.r.Peek(1) == '/' {
+		} else if inTag && inQuote == 0 && c == '>' {
+			inTag = false
+			l.r.Move(1)
+		} else if c == '<' && !inTag && l.r.Peek(1) == '/' {
 			mark := l.r.Pos()
 			l.r.Move(2)
 			for {
@@ -540,6 +548,20 @@ func (l *Lexer) shiftXML(rawTag Hash) []byte {
 			if h := ToHash(parse.ToLower(parse.Copy(l.r.Lexeme()[mark+2:]))); h == rawTag { // copy so that ToLower doesn't change the case of the underlying slice
 				break
 			}
+			inTag = true
+		} else if c == '<' && !inTag && (l.at('<', '!', '-', '-') || l.at('<', '!', '[', 'C', 'D', 'A', 'T', 'A', '[')) {
+			// quotes and angle brackets inside comments and CDATA sections are plain text
+			isComment := l.r.Peek(2) == '-'
+			l.r.Move(4)
+			for {
+				if c = l.r.Peek(0); c == 0 || isComment && l.at('-', '-', '>') || !isComment && l.at(']', ']', '>') {
+					break
+				}
+				l.r.Move(1)
+			}
+		} else if c == '<' && !inTag {
+			inTag = true
+			l.r.Move(1)
 		} else if c == 0 {
 			if l.r.Err() == nil {
 				l.err = parse.NewErrorLexer(l.r, "unexpected NULL character")
